@@ -336,7 +336,7 @@ m("C16-R5-remove", "C16", "C16.R5", "generator/filemanager.go", '\toutput := get
 m("C16-R6-stat", "C16", "C16.R6", "generator/filemanager.go", '\toutput := getOutputDir(conv)\n', '\toutput := getOutputDir(conv)\n\tif st, err := os.Stat(output); err == nil && st.IsDir() {\n\t\treturn nil, nil, fmt.Errorf("output %s is a directory", output)\n\t}\n')
 m("C17-O8-skip-empty", "C17", "C17.O8", "generator/generate.go", '\t\tif err := generateConverter(converter, jenFile, n); err != nil {', '\t\tif len(converter.Methods) == 0 && len(converter.OutputRaw) == 0 && len(converter.Comments) == 0 {\n\t\t\tcontinue\n\t\t}\n\t\tif err := generateConverter(converter, jenFile, n); err != nil {')
 m("C18-R5-counter", "C18", "C18.R5", "xtype/enum.go", 'func loadEnum(t *types.Named, cfg *enum.Config) *Enum {\n', 'var enumLoads int\n\nfunc loadEnum(t *types.Named, cfg *enum.Config) *Enum {\n\tenumLoads++\n')
-m("C19-R7-stop-at-blank", "C19", "C19.R7", "config/parse/line.go", '\t\tline := strings.TrimSpace(scanner.Text())\n', '\t\tline := strings.TrimSpace(scanner.Text())\n\t\tif line == "" && len(lines) > 0 {\n\t\t\tbreak\n\t\t}\n')
+m("C19-R7-stop-at-blank", "C19", "C19.R7", "config/parse/line.go", '\t\tline := strings.TrimSpace(line)\n', '\t\tline := strings.TrimSpace(line)\n\t\tif line == "" && len(lines) > 0 {\n\t\t\tbreak\n\t\t}\n')
 m("C03-R8-exported-only", "C03", "C03.R8", "enum/detect.go", '\t\tif !ok {\n\t\t\tcontinue\n\t\t}\n', '\t\tif !ok || !c.Exported() {\n\t\t\tcontinue\n\t\t}\n')
 
 def run(cmd, cwd=None):
